@@ -107,6 +107,9 @@ func (w *World) clusterAnchors() *clusterAnchors {
 			}
 			p := w.pathOf(c.Args[len(c.Args)-1])
 			f := c.StaticCallee()
+			if !strings.HasSuffix(p, "#0") && !strings.HasSuffix(p, "#0.Members") {
+				continue // only the message itself (or its member list) is a dispatch
+			}
 			switch {
 			case strings.HasPrefix(p, "assert<*cluster.Members>("):
 				a.handleMembers = f
@@ -120,6 +123,27 @@ func (w *World) clusterAnchors() *clusterAnchors {
 				a.hActReq = f
 			case strings.HasPrefix(p, "assert<cluster.getActive>("):
 				a.hGetActive = f
+			}
+		}
+	}
+	// a handler written in place in Receive's type switch: its case region stands in for it
+	if a.recv != nil {
+		for _, vh := range []struct {
+			slot   **ssa.Function
+			typ    string
+			name   string
+			suffix string
+			param  int
+		}{
+			{&a.handleMembers, "*cluster.Members", "handleMembers", ".Members", 1},
+			{&a.hActivation, "*cluster.Activation", "handleActivation", "", 1},
+			{&a.hDeact, "*cluster.Deactivation", "handleDeactivation", "", 1},
+			{&a.hTopology, "*cluster.ActorTopology", "handleActorTopology", "", 1},
+			{&a.hActReq, "*cluster.ActivationRequest", "handleActivationRequest", "", 1},
+			{&a.hGetActive, "cluster.getActive", "handleGetActive", "", 2},
+		} {
+			if *vh.slot == nil {
+				*vh.slot = w.virtualHandler(a.recv, vh.typ, "(*cluster.Agent)."+vh.name, vh.suffix, vh.param)
 			}
 		}
 	}
@@ -204,6 +228,7 @@ func (a *clusterAnchors) fail(r *Report, rule string) bool {
 
 // mapWriters lists functions writing (update, delete, clear, replace) the map stored in field `field` of named.
 func (w *World) mapWriters(pkg string, named *types.Named, field string) map[*ssa.Function]bool {
+	defer w.keepCtx()()
 	out := map[*ssa.Function]bool{}
 	isF := func(v ssa.Value) bool {
 		if u, ok := v.(*ssa.UnOp); ok {
@@ -485,17 +510,48 @@ func checkC18(w *World, r *Report) {
 			}
 		}
 		r.Check(ok, "C18.R2", fname(a.join)+":kinds", "the join handler records every kind of the new member (on the edge where it is not yet known)", w.fnPos(a.join), "HasKind stays false for a kind that only the new member offers")
-		// leave rebuilds kinds after the removal
+		// leave rebuilds kinds after the removal (through the rebuild helper, or written out in the leave handler)
+		rebuildInline := false
+		if a.rebuild == nil && a.leave != nil {
+			for _, in := range w.insOf(a.leave) {
+				if c := callOf(in); c != nil && len(c.Args) > 0 && w.pathOf(c.Args[0]) == "P0.kinds" {
+					if f := c.StaticCallee(); f != nil && strings.Contains(f.String(), "maps.Clear") {
+						rebuildInline = true
+					}
+					if bi, isB := c.Value.(*ssa.Builtin); isB && bi.Name() == "clear" {
+						rebuildInline = true
+					}
+				}
+			}
+			if rebuildInline {
+				a.rebuild = a.leave
+				defer func() { a.rebuild = nil }()
+			}
+		}
 		if a.rebuild == nil {
 			r.Fail("C18.R2", fname(a.leave)+":rebuild-after-remove", "kinds are rebuilt after the member was removed", w.fnPos(a.leave),
 				"the leave handler calls no helper that recomputes kinds from the remaining members: a kind still offered by another member disappears (or a vanished kind stays)")
-			r.Fail("C18.R2", "rebuildKinds:clear-and-readd", "rebuild clears kinds and re-adds the kinds of every remaining member", w.fnPos(a.leave), "no rebuild helper")
+			r.Fail("C18.R2", "(*cluster.Agent).rebuildKinds:clear-and-readd", "rebuild clears kinds and re-adds the kinds of every remaining member", w.fnPos(a.leave), "no rebuild helper")
 			goto r3
 		}
 		{
 		lg := w.FGI(a.leave)
 		R := w.Nodes(lg, EvCall("Remove", rem), true)
 		B := w.Nodes(lg, EvCall("rebuild", a.rebuild), true)
+		if rebuildInline {
+			// the point where the rebuild starts: kinds is cleared
+			B = make([]bool, len(lg.ins))
+			for i, in := range lg.ins {
+				if c := callOf(in); c != nil && len(c.Args) > 0 && w.pathOf(c.Args[0]) == "P0.kinds" {
+					if f := c.StaticCallee(); f != nil && strings.Contains(f.String(), "maps.Clear") {
+						B[i] = true
+					}
+					if bi, isB := c.Value.(*ssa.Builtin); isB && bi.Name() == "clear" {
+						B[i] = true
+					}
+				}
+			}
+		}
 		okR := anyOf(R) && anyOf(B)
 		for _, n := range members(R) {
 			if !lg.After(n, B) {
@@ -575,7 +631,7 @@ func checkC18(w *World, r *Report) {
 				}
 			}
 		}
-		r.Check(clr && readd, "C18.R2", fname(a.rebuild)+":clear-and-readd", "rebuild clears kinds and re-adds the kinds of every remaining member", w.fnPos(a.rebuild), "kinds is not recomputed from the whole remaining view")
+		r.Check(clr && readd, "C18.R2", "(*cluster.Agent).rebuildKinds:clear-and-readd", "rebuild clears kinds and re-adds the kinds of every remaining member", w.fnPos(a.rebuild), "kinds is not recomputed from the whole remaining view")
 		}
 	}
 r3:
@@ -647,7 +703,17 @@ r3:
 		nms := w.Func("cluster", "NewMemberSet")
 		chk(nms, "NewMemberSet", func(in ssa.Instruction) bool {
 			mu, ok := in.(*ssa.MapUpdate)
-			return ok && strings.HasSuffix(w.pathOf(mu.Key), "].ID") && strings.HasPrefix(w.pathOf(mu.Key), "P0[") && w.pathOf(mu.Value)+".ID" == w.pathOf(mu.Key)
+			if ok && strings.HasSuffix(w.pathOf(mu.Key), "].ID") && strings.HasPrefix(w.pathOf(mu.Key), "P0[") && w.pathOf(mu.Value)+".ID" == w.pathOf(mu.Key) {
+				return true
+			}
+			// or: every element is handed to Add (which is keyed by ID, see MemberSet.Add)
+			if c, isC := in.(*ssa.Call); isC && c.Call.StaticCallee() == mk("Add") && mk("Add") != nil && len(c.Call.Args) == 2 {
+				if ap := w.pathOf(c.Call.Args[1]); strings.HasPrefix(ap, "P0[") && strings.HasSuffix(ap, "]") && strings.HasPrefix(w.pathOf(c.Call.Args[0]), "&lit:MemberSet{") {
+					g := w.FGI(nms)
+					return w.indexLoopEvery(g, "P0", setOf(len(g.ins), g.idx[c]))
+				}
+			}
+			return false
 		})
 		// Except
 		if except != nil {
@@ -671,6 +737,41 @@ r3:
 			}
 			ok := fill != nil && test != nil && app != nil
 			detail := "unrecognised shape"
+			if !ok && app != nil {
+				// the other shape: other := NewMemberSet(arg...); a member is appended unless other.Contains(member)
+				// (NewMemberSet and Contains are keyed by ID, see above)
+				vals := w.appended(app)
+				has, hasNot := w.callEdges(g, "call:(*cluster.MemberSet).Contains(call:cluster.NewMemberSet(P1),next(range(P0.members))#2)")
+				switch {
+				case len(has) == 0 || len(hasNot) == 0:
+					detail = "no membership test of the receiver's members against the argument"
+				case len(vals) != 1 || w.pathOf(vals[0]) != "next(range(P0.members))#2":
+					detail = "the appended member is not the tested one"
+				case !g.OnlyVia(hasNot, g.idx[app]):
+					detail = "members are appended on the wrong edge of the membership test (Except returns the intersection)"
+				default:
+					A := setOf(len(g.ins), g.idx[app])
+					good := true
+					for _, e := range hasNot {
+						rr := g.reach([]int{e.to}, A, nil)
+						for _, in := range g.ins {
+							if nx, isN := in.(*ssa.Next); isN && rr[g.idx[nx]] {
+								good = false
+							}
+						}
+						for _, x := range g.returns {
+							if rr[x] {
+								good = false
+							}
+						}
+					}
+					if good {
+						r.OK("C18.R4", "MemberSet.Except", "Except(s, arg) = members of s whose ID is not among arg's IDs", w.fnPos(except))
+						goto exceptDone
+					}
+					detail = "an absent member can be skipped"
+				}
+			}
 			if ok {
 				fk, tk := w.pathOf(fill.Key), w.pathOf(test.Index)
 				vals := w.appended(app)
@@ -703,6 +804,7 @@ r3:
 				}
 			}
 			r.Check(ok, "C18.R4", "MemberSet.Except", "Except(s, arg) = members of s whose ID is not among arg's IDs", w.fnPos(except), detail)
+		exceptDone:
 		}
 		sl := mk("Slice")
 		okS := false
@@ -950,7 +1052,9 @@ func checkC19(w *World, r *Report) {
 		okP := false
 		for _, ci := range w.callsIn(a.activate, EvCall("Request", req)) {
 			tp := w.pathOf(ci.Common().Args[1])
-			if strings.HasPrefix(tp, "call:actor.NewPID(call:dyn[") && strings.Contains(tp, "Members=call:(*cluster.MemberSet).FilterByKind(P0.members,P1)") && strings.Contains(tp, ".Host,") && strings.Contains(tp, `(K:"cluster/"+call:dyn[`) {
+			formA := strings.HasPrefix(tp, "call:actor.NewPID(call:dyn[") && strings.Contains(tp, ".Host,") && strings.Contains(tp, `(K:"cluster/"+call:dyn[`)
+			formB := strings.HasPrefix(tp, "call:(*cluster.Member).PID(call:dyn[") // Member.PID is checked under C19.R4
+			if (formA || formB) && strings.Contains(tp, "Members=call:(*cluster.MemberSet).FilterByKind(P0.members,P1)") {
 				if rq, _, lit := w.structLit(ci.Common().Args[2]); lit && rq != nil && rq.Obj().Name() == "ActivationRequest" && w.pathOf(ci.Common().Args[2]) == "&lit:ActivationRequest{ID=P2.id,Kind=P1}" {
 					okP = true
 				}
@@ -1194,6 +1298,49 @@ func checkC19(w *World, r *Report) {
 			}
 			walk(act)
 			if !full {
+				// the preallocate-and-index form: make([]*ActorInfo, len(activated)); infos[i] = &ActorInfo{PID: pid}; i++
+				if ms, isMS := w.resolve(act).(*ssa.MakeSlice); isMS && w.pathOf(ms.Len) == "len(P0.activated)" {
+					slot := make([]bool, len(g.ins))
+					var idxV ssa.Value
+					for i, in := range g.ins {
+						if st, isSt := in.(*ssa.Store); isSt {
+							if ia, isIA := st.Addr.(*ssa.IndexAddr); isIA && ia.X == ssa.Value(ms) {
+								if _, afs, l := w.structLit(st.Val); l && strings.HasPrefix(w.pathOf(afs["PID"]), "next(range(P0.activated))#2") {
+									slot[i] = true
+									idxV = ia.Index
+								}
+							}
+						}
+					}
+					if ph, isPhi := idxV.(*ssa.Phi); isPhi && anyOf(slot) && w.rangeLoopEvery(g, "P0.activated", slot) {
+						init, step := false, false
+						for _, e := range ph.Edges {
+							if constStr(e) == "0" {
+								init = true
+							}
+							if b, isB := e.(*ssa.BinOp); isB && b.Op == token.ADD && b.X == ssa.Value(ph) && constStr(b.Y) == "1" {
+								// the increment happens in the same iteration as the store
+								if bi, isI := e.(ssa.Instruction); isI {
+									step = true
+									for _, sn := range members(slot) {
+										rr := g.reach(g.succ[sn], setOf(len(g.ins), g.idx[bi]), nil)
+										for i, in := range g.ins {
+											if _, isNext := in.(*ssa.Next); isNext && rr[i] {
+												step = false
+											}
+										}
+									}
+								}
+							}
+						}
+						if init && step {
+							full = true
+							leaves = nil
+						}
+					}
+				}
+			}
+			if !full {
 				ok, detail = false, "the topology is not built from every entry of the activation table"
 			}
 			// only skipped when empty
@@ -1237,6 +1384,11 @@ func checkC19(w *World, r *Report) {
 		} {
 			es := w.caseEdges(g, c.typ)
 			ok := len(es) > 0
+			if ok && w.isVirtual(c.h) {
+				// the handler is the case body itself
+				r.OK("C19.R4", fname(a.recv)+":case "+c.typ, "a "+c.typ+" message reaches "+fname(c.h)+" on every path", w.fnPos(a.recv))
+				continue
+			}
 			if ok {
 				H := w.Nodes(g, Ev{Name: "h", M: EvCall("h", c.h).M, Shallow: true}, false)
 				rr := reachFromEdges(g, es, H)
@@ -1634,35 +1786,82 @@ func checkC20(w *World, r *Report) {
 	{
 		if gbh := w.Method("cluster", "MemberSet", "GetByHost"); gbh != nil {
 			hg := w.FGI(gbh)
-			okG := false
-			for _, x := range hg.returns {
-				v := hg.ins[x].(*ssa.Return).Results[0]
-				var leaves []ssa.Value
-				phiLeaves(v, map[ssa.Value]bool{}, &leaves)
-				for _, l := range leaves {
-					if strings.HasPrefix(w.pathOf(l), "next(range(P0.members))#2") {
-						// the member enters the result only on the edge where its Host equals the argument
-						if ph, isPhi := v.(*ssa.Phi); isPhi {
-							for i, e := range ph.Edges {
-								if e == l {
-									pred := ph.Block().Preds[i]
-									if iff, isIf := pred.Instrs[len(pred.Instrs)-1].(*ssa.If); isIf {
-										p := w.pathOf(iff.Cond)
-										if (p == "(next(range(P0.members))#2.Host==P1)" && pred.Succs[0] == ph.Block()) || (p == "(next(range(P0.members))#2.Host!=P1)" && pred.Succs[1] == ph.Block()) {
-											okG = true
-										}
-									}
-									for _, pp := range pred.Preds {
-										if iff, isIf := pp.Instrs[len(pp.Instrs)-1].(*ssa.If); isIf && w.pathOf(iff.Cond) == "(next(range(P0.members))#2.Host==P1)" && pp.Succs[0] == pred {
-											okG = true
-										}
-									}
-								}
+			// the result is nil or a member of the set, and a member enters the result only where its Host
+			// is known to equal the argument (whatever the shape of the test: ==, != with continue, ...)
+			okG, sawMember := true, false
+			seenPhi := map[*ssa.Phi]bool{}
+			var visit func(v ssa.Value)
+			visit = func(v ssa.Value) {
+				switch x := v.(type) {
+				case *ssa.Phi:
+					if seenPhi[x] {
+						return
+					}
+					seenPhi[x] = true
+					for j, e := range x.Edges {
+						if _, isPhi := e.(*ssa.Phi); isPhi {
+							visit(e)
+							continue
+						}
+						if k, isK := e.(*ssa.Const); isK && k.IsNil() {
+							continue
+						}
+						p := w.pathOf(e)
+						if !strings.HasPrefix(p, "next(range(P0.members))#2") || p != "next(range(P0.members))#2" {
+							okG = false
+							continue
+						}
+						sawMember = true
+						pred := x.Block().Preds[j]
+						at := hg.first[pred] + len(pred.Instrs) - 1
+						guarded := false
+						for _, f := range hg.FactsAt(at) {
+							fp := w.factPos(f)
+							if fp == "(next(range(P0.members))#2.Host==P1)" || fp == "(P1==next(range(P0.members))#2.Host)" {
+								guarded = true
 							}
 						}
+						if !guarded {
+							okG = false
+						}
+					}
+				case *ssa.Const:
+					if !x.IsNil() {
+						okG = false
+					}
+				default:
+					// returned directly from inside the loop
+					if w.pathOf(v) == "next(range(P0.members))#2" {
+						sawMember = true
+					} else {
+						okG = false
 					}
 				}
 			}
+			for _, rc := range hg.retCases() {
+				v := rc.res[0]
+				if _, isPhi := v.(*ssa.Phi); !isPhi && w.pathOf(v) == "next(range(P0.members))#2" {
+					// `return member` inside the loop: guarded at the return
+					sawMember = true
+					at := rc.x
+					if rc.via != nil {
+						at = rc.via.from
+					}
+					guarded := false
+					for _, f := range hg.FactsAt(at) {
+						fp := w.factPos(f)
+						if fp == "(next(range(P0.members))#2.Host==P1)" || fp == "(P1==next(range(P0.members))#2.Host)" {
+							guarded = true
+						}
+					}
+					if !guarded {
+						okG = false
+					}
+					continue
+				}
+				visit(v)
+			}
+			okG = okG && sawMember
 			r.Check(okG, "C20.R3", "MemberSet.GetByHost", "GetByHost returns a member whose Host equals the given address (nil if none)", w.fnPos(gbh),
 				"the member looked up for an unreachable address is not the one with that address: another member is removed")
 		}
